@@ -163,6 +163,8 @@ class Class:
         """dataclass-style field order: bases first, redefinition keeps original position"""
         out: dict[str, Field] = {}
         for c in reversed(self.mro):
+            if self.is_dataclass and not c.is_dataclass:
+                continue        # (a dataclass collects the fields of its dataclass bases only: annotations of a plain mixin are not fields)
             for f in c.fields:
                 if f.classvar:
                     continue
